@@ -43,9 +43,8 @@ META = {
 
 BATCH = 1500
 EVAL = G.MODE_EVALUATOR           # mode -> evaluator name used in finding keys
-SFLO_MASK_OPS_NOTE = ("the fraction word printed for SFlo results is compared modulo 2^32 and the second fraction "
-                      "word of DFloDissemble is not compared: both are uninitialised storage in fi[SD]FloDissemble "
-                      "(recorded in known_findings.jsonl)")
+SFLO_MASK_OPS_NOTE = ("floating-point results are observed through [SD]FloDissemble (sign, exponent, all fraction words) "
+                      "and compared in full between the evaluators")
 
 
 # ------------------------------------------------------------------ helpers
@@ -93,34 +92,9 @@ def tlc_or_die(chk, name, module, cfg, **kw):
 
 
 def canon_line(op, line, sig):
-    """Projection of a printed line onto what is compared: fraction words of single floats modulo 2^32."""
-    if line is None:
-        return None
-    rts = sig[op]["res"]
-    if op == "DFloDissemble":
-        rts = rts[:3]
-    if "SFlo" not in rts and op != "SFloDissemble":
-        return line
-    toks = line.split(" ")
-    out = []
-    i = 0
-    try:
-        if op == "SFloDissemble":
-            toks[2] = str(int(toks[2]) & 0xFFFFFFFF)
-            return " ".join(toks)
-        for t in rts:
-            if t == "SFlo":
-                out += [toks[i], toks[i + 1], str(int(toks[i + 2]) & 0xFFFFFFFF)]
-                i += 3
-            elif t == "DFlo":
-                out += toks[i:i + 3]
-                i += 3
-            else:
-                out.append(toks[i])
-                i += 1
-        return " ".join(out + toks[i:])
-    except (IndexError, ValueError):
-        return line
+    """Projection of a printed line onto what is compared.  Until /repo 18659d0 the fraction words returned by
+    fi[SD]FloDissemble carried uninitialised bits and were masked here; they are compared in full now."""
+    return line
 
 
 def run_cases(build, cases, sig, workdir, tag, want_cfold, want_fint_batches, modes=G.MODES, variable_first=False,
@@ -322,7 +296,7 @@ def run(chk, tier):
                 "binary products %s, plus seeded random tuples; a case is non-trivial when the specification "
                 "defines its value (otherwise it is an agreement case)" %
                 ("on a 1/%d stride of the index grid plus the full product of the core sets" %
-                 (int(os.environ.get("VERIF_C04_STRIDE", "5")) if thorough else 251)))
+                 (int(os.environ.get("VERIF_C04_STRIDE", "5")) if thorough else 401)))
     chk.assumptions += [
         "platform of the binding: LP64 (SInt and Word are 64 bit two's complement, HInt 16 bit, Byte 8 bit unsigned, "
         "Char unsigned 8 bit); gcc -O0 wraps signed overflow",
@@ -339,56 +313,56 @@ def run(chk, tier):
         SFLO_MASK_OPS_NOTE,
     ]
 
-    # ---------------- (A) the model of the algebra, small width, exhaustive
-    for name, module, cfg in ([("WordCheck8b", "WordCheck", "WordCheckQuick"),
-                               ("BuiltinsCheck8b", "BuiltinsCheck", "BuiltinsCheckQuick")] if not thorough else
-                              [("WordCheck8", "WordCheck", "WordCheck"), ("WordCheck13", "WordCheck", "WordCheck13"),
-                               ("BuiltinsCheck8", "BuiltinsCheck", "BuiltinsCheckThorough")]):
-        r = tlc_or_die(chk, name, module, cfg, workers=vlib.NCPU, timeout=3000 if thorough else 900)
-        if r.violated:
-            chk.violation("the definitions are inconsistent with native arithmetic at small width: %s of %s"
-                          % (r.violated, module), r.trace_text, key={"model": module, "inv": r.violated})
-            return
-
-    _log("model checks done")
-    # ---------------- (B) expected table from TLC
-    stride = int(os.environ.get("VERIF_C04_STRIDE", "5")) if thorough else 251
+    # ---------------- TLC: (A) the model of the algebra at small width and (B) the expected table, run concurrently
+    stride = int(os.environ.get("VERIF_C04_STRIDE", "5")) if thorough else 401
     stride3 = 2 if thorough else 61
     offset = chk.seed % 9973
     t0 = time.time()
-    r = tlc_or_die(chk, "BuiltinsGen[sig]", "BuiltinsGen", gen_cfg(stride, stride3, offset, ["BoolNot"]),
-                   workers=2, timeout=600)
+    r = tlc_or_die(chk, "BuiltinsSig", "BuiltinsSig", "BuiltinsSig", workers=1, timeout=600)
     sig = G.parse_sig(r.printed)
     names = sorted(sig)
-    # thorough: several TLC runs over disjoint groups of operations keep the printed table of one run small
+    chk.extra["drift"] = table_drift(sig)          # against foamBValInfoTable, information only
+
+    nrand = 6000 if thorough else 1000
+    rp = os.path.join(work, "random.ndjson")
+    vlib.write_ndjson(rp, random_cases(rng, sig, nrand))
+    # thorough: several generator runs over disjoint groups of operations keep the printed table of one run small
     ngroups = 8 if thorough and stride < 16 else 1
     groups = [[] for _ in range(ngroups)]
     for k, o in enumerate(names):
         groups[k % ngroups].append(o)
-    cases = []
+    ncpu = vlib.NCPU
+    model = ([("WordCheck8b", "WordCheck", "WordCheckQuick", max(2, ncpu // 4)),
+              ("BuiltinsCheck8b", "BuiltinsCheck", "BuiltinsCheckQuick", max(2, ncpu // 2))] if not thorough else
+             [("WordCheck8", "WordCheck", "WordCheck", ncpu // 2), ("WordCheck13", "WordCheck", "WordCheck13", 2),
+              ("BuiltinsCheck8", "BuiltinsCheck", "BuiltinsCheckThorough", ncpu)])
+    jobs = [(n, m, c, dict(workers=w, timeout=4000 if thorough else 900)) for n, m, c, w in model]
+    jobs.append(("BuiltinsEval", "BuiltinsEval", "BuiltinsEval", dict(workers=2, timeout=1800, env={"CASES": rp})))
     for gi, ops in enumerate(groups):
-        r = tlc_or_die(chk, "BuiltinsGen[%d]" % gi, "BuiltinsGen", gen_cfg(stride, stride3, offset, ops if ngroups > 1 else ()),
-                       workers=vlib.NCPU, timeout=5400 if thorough else 900, xmx="14g")
+        jobs.append(("BuiltinsGen[%d]" % gi, "BuiltinsGen", gen_cfg(stride, stride3, offset, ops if ngroups > 1 else ()),
+                     dict(workers=ncpu if thorough else max(2, ncpu // 2), timeout=5400 if thorough else 900, xmx="14g")))
+
+    def tlc_job(j):
+        kw = dict(j[3])
+        kw.setdefault("extra", ("-noGenerateSpecTE",))
+        return vlib.tlc(j[1], j[2], **kw)
+    with concurrent.futures.ThreadPoolExecutor(max_workers=4 if not thorough else 2) as ex:
+        results = list(ex.map(tlc_job, jobs))
+    cases, rcases = [], []
+    for j, r in zip(jobs, results):
+        chk.add_tlc(j[0], r)
+        if j[1] in ("WordCheck", "BuiltinsCheck"):
+            if r.violated:
+                chk.violation("the definitions are inconsistent with native arithmetic at small width: %s of %s"
+                              % (r.violated, j[1]), r.trace_text, key={"model": j[1], "inv": r.violated})
+                return
+            continue
         if r.violated:
-            raise vlib.MachineryError("BuiltinsGen stopped: %s\n%s" % (r.violated, r.trace_text[:2000]))
-        cases += G.parse_cases(r.printed, sig)
+            raise vlib.MachineryError("%s stopped: %s\n%s" % (j[0], r.violated, r.trace_text[:2000]))
+        (rcases if j[1] == "BuiltinsEval" else cases).extend(G.parse_cases(r.printed, sig))
         r.printed = []
         r.out = ""
-    chk.extra["tlc_gen_s"] = round(time.time() - t0, 1)
-
-    # signature drift against foamBValInfoTable (information only)
-    chk.extra["drift"] = table_drift(sig)
-
-    # seeded random tuples, expected values again from TLC
-    nrand = 6000 if thorough else 1500
-    rc = random_cases(rng, sig, nrand)
-    rp = os.path.join(work, "random.ndjson")
-    vlib.write_ndjson(rp, rc)
-    r2 = tlc_or_die(chk, "BuiltinsEval", "BuiltinsEval", "BuiltinsEval", workers=min(8, vlib.NCPU), timeout=1800,
-                    env={"CASES": rp})
-    if r2.violated:
-        raise vlib.MachineryError("BuiltinsEval stopped: %s" % r2.violated)
-    rcases = G.parse_cases(r2.printed, sig)
+    chk.extra["tlc_s"] = round(time.time() - t0, 1)
     seen = set((c["op"], json.dumps(c["args"])) for c in cases)
     rcases = [c for c in rcases if (c["op"], json.dumps(c["args"])) not in seen]
     for c in rcases:
@@ -403,7 +377,33 @@ def run(chk, tier):
     order = list(range(len(cases)))
     rng.shuffle(order)                 # mixes operations over batches (even batch cost); order is seed-determined
     cases = [cases[i] for i in order]
-    obs, crashes, cfold_files, fint_files = run_cases(build, cases, sig, work, "b", True, 3 if not thorough else 12)
+    # one representative of every (builtin, argument class) goes into the first batches, whose interpreter run is
+    # traced (fint hook): every class of every builtin is then also validated as a recorded event
+    seen_cls, reps, rest = set(), [], []
+    for c in cases:
+        k = (c["op"], G.argclass(c["op"], c["args"], sig))
+        if k in seen_cls:
+            rest.append(c)
+        else:
+            seen_cls.add(k)
+            reps.append(c)
+    cases = reps + rest
+    nfint = min(3, (len(reps) + BATCH - 1) // BATCH) if not thorough else 12
+    chk.extra["argument_classes"] = len(reps)
+    # fourth route, run at the same time: -Q2 with a non-constant first operand (the algebraic simplifier
+    # of_peep.c rewrites the application, e.g. times 2^k -> shift; the folder cannot evaluate it)
+    vsel = [i for i, c in enumerate(cases) if c["res"] is not None and sig[c["op"]]["args"]
+            and sig[c["op"]]["args"][0] in ("SInt", "BInt", "Bool")
+            and c["op"] not in ("FormatSInt", "FormatBInt")]
+    vreps = [i for i in vsel if i < len(reps)]          # every argument class of every eligible builtin
+    vrest = [i for i in vsel if i >= len(reps)]
+    vsel = vreps + (vrest[chk.seed % 3::3] if thorough else vrest[chk.seed % 4::4])
+    vcases = [cases[i] for i in vsel]
+    with concurrent.futures.ThreadPoolExecutor(max_workers=2) as ex2:
+        f_main = ex2.submit(run_cases, build, cases, sig, work, "b", True, nfint)
+        f_v = ex2.submit(run_cases, build, vcases, sig, work, "v", False, 0, ("q2v",), True, 300)
+        obs, crashes, cfold_files, fint_files = f_main.result()
+        vobs, vcrashes, _, _ = f_v.result()    # batches of 300: the optimiser is quadratic in the size of such a program
     chk.extra["run_s"] = round(time.time() - t0, 1)
 
     _log("three routes run")
@@ -438,17 +438,7 @@ def run(chk, tier):
                 else:
                     observe_events.append({"ev": "Observe", "input": "%s %s" % (op, json.dumps(c["args"])),
                                            "cfg": m, "digest": G.digest_words(canon_line(op, got, sig))})
-    # ---------------- fourth route: -Q2 with a non-constant first operand (the algebraic simplifier of_peep.c
-    # rewrites the application, e.g. times 2^k -> shift; the folder cannot evaluate it)
-    vsel = [i for i, c in enumerate(cases) if c["res"] is not None and sig[c["op"]]["args"]
-            and sig[c["op"]]["args"][0] in ("SInt", "BInt", "Bool")
-            and c["op"] not in ("FormatSInt", "FormatBInt")]
-    vsel = vsel[chk.seed % 3::3] if thorough else vsel[chk.seed % 4::4]
-    vcases = [cases[i] for i in vsel]
-    t0 = time.time()
-    vobs, vcrashes, _, _ = run_cases(build, vcases, sig, work, "v", False, 0, modes=("q2v",), variable_first=True,
-                                        batch=300)      # the optimiser is quadratic in the size of such a program
-    chk.extra["run_q2v_s"] = round(time.time() - t0, 1)
+    # ---------------- fourth route (q2v): compare
     chk.extra["cases_q2v"] = len(vcases)
     for k, c in enumerate(vcases):
         exp = G.expected_line(c, sig)
@@ -517,9 +507,13 @@ def run(chk, tier):
         if n_fold_confirmed == 0:
             raise vlib.MachineryError("the folder logged events but none matches a generated case: binding is broken")
     # cap the fint events by seeded sampling (every cfold event is kept)
-    cap = 400000 if thorough else 60000
+    cap = 400000 if thorough else 15000
     if len(fint_events) > cap:
-        fint_events = rng.sample(fint_events, cap)
+        # every event that is the application of a generated case is kept; the rest (library code) is sampled
+        case_keys = set(k for k in (G.case_event_key(c, sig) for c in cases) if k)
+        mine = [e for e in fint_events if G.event_key(e) in case_keys]
+        other = [e for e in fint_events if G.event_key(e) not in case_keys]
+        fint_events = mine + rng.sample(other, max(0, min(len(other), cap - len(mine))))
     chk.extra["hook_events"]["fint_validated"] = len(fint_events)
     events = cfold_events + fint_events + observe_events
     t0 = time.time()
@@ -670,6 +664,13 @@ Thorough tier: exercised end to end with VERIF_C04_STRIDE=15 on the hook worktre
 3 612 s wall at load average 130-250 (about 5 000 CPU-seconds).  A first attempt lost its compiler when other checks' builds
 evicted the shared build cache entry after 40 minutes: the check now works on a private copy of aldor and libfoam-fresh.a.
 The default stride 5 has not been run to completion here because of the machine load.
+
+After the lead committed the hook (4b565af) and the repairs (d59b0d5, 3910897, 7cb2bf1, fa8dd9d, 4df23f6, 18659d0, a7fe908,
+a76b7bf): quick on /repo holds with exactly 8 known-finding lines (SIntPlusMod overflow on q0i/q2i/q0c/q2v/fint/cfold,
+SIntTimesModInv on q0i/q2i), identical for VERIF_SEED 11, 424242, 5 and the default; 62 C04 findings are "fixed".  The
+fraction words of [SD]FloDissemble are compared in full again.  Quick tier now: the TLC runs (W = 8 model checks, generator,
+random evaluation) run concurrently, the q2v route runs beside the three routes, stride 401: 37 000 cases, 100-110 s wall at
+load average 75, about 400-430 CPU-seconds.
 
 False alarms met while building (fixed in the model/harness, never listed as findings): compiler warnings about stale .c
 files shifted the output lines of the -Q2 run; an interpreter abort (SIntTimesModInv "unimplemented") was attributed to the
